@@ -436,6 +436,48 @@ def run_cli_pairs(ctx, cli_exe, impl, model, defaults, nproj, tally):
                             tally.fails.append((c, json.dumps(r), ["explain reports limit %d warn %d skip %s/%s (count %d -> %s), check reports sloc %d limit %d %s" %
                                                                    (ej["effective_limit"], ej["effective_warn_at"], ej["skip_comments"], ej["skip_blank"], cnt, want_status,
                                                                     r["sloc"], r["limit"], r["status"])]))
+            # aliases of a file: a symbolic link in ANOTHER directory (check evaluates it when it is listed with --files) and a
+            # spelling with a `..` segment. Rules are matched against the path as given, by check and by explain alike:
+            # explain must report the limit, warn point and flags check applies to THAT path, not to where it resolves
+            aliases = []
+            real = [q for q in want if os.path.basename(q).rsplit(".", 1)[-1] in KNOWN_LANG and "." in os.path.basename(q)]
+            dirs_here = sorted({os.path.dirname(q) for q in CLI_PATHS} | {"vendor", "lib/inner"})
+            for q in rng.sample(real, min(2, len(real))):
+                d = rng.choice([x for x in dirs_here if x != os.path.dirname(q)] or [""])
+                lp = os.path.join(d, "l_" + os.path.basename(q)) if d else "l_" + os.path.basename(q)
+                full = os.path.join(sb.proj, lp)
+                os.makedirs(os.path.dirname(full), exist_ok=True)
+                if not os.path.lexists(full):
+                    os.symlink(os.path.relpath(os.path.join(sb.proj, q), os.path.dirname(full)), full)
+                    aliases.append((lp, "symlink to " + q))
+                if os.path.dirname(q):
+                    other = rng.choice([x for x in dirs_here if x and os.path.isdir(os.path.join(sb.proj, x))] or ["src"])
+                    if os.path.isdir(os.path.join(sb.proj, other)):
+                        aliases.append((other + "/" + "/".join([".."] * (other.count("/") + 1)) + "/" + q, "dot-dot spelling of " + q))
+            for ap, what in aliases:
+                rc, out, err = sb_run(sb, cli_exe, ["--color", "never", "check", "--format", "json", "--no-sloc-cache", "--files", ap], env={"RAYON_NUM_THREADS": "1"})
+                rc2, out2, err2 = sb_run(sb, cli_exe, ["--color", "never", "explain", ap, "--format", "json"])
+                st["spawns"] += 2
+                try:
+                    rr = [r for r in json.loads(out)["results"] if r.get("violation_category") in (None, "content") or "sloc" in r]
+                    ej = json.loads(out2)
+                except Exception:
+                    continue
+                rr = [r for r in rr if r.get("stats")]
+                if len(rr) != 1 or ej.get("is_excluded"):
+                    continue
+                r = rr[0]
+                rs = r["stats"]
+                cnt = rs["code"] + (0 if ej["skip_comments"] else rs["comment"]) + (0 if ej["skip_blank"] else rs["blank"])
+                want_status = verdict(cnt, ej["effective_limit"], ej["effective_warn_at"])
+                st["alias_pairs"] = st.get("alias_pairs", 0) + 1
+                tally.evals += 1
+                tally.bump("tag:cli-alias")
+                if (cnt, ej["effective_limit"], want_status) != (r["sloc"], r["limit"], STATUS.get(r["status"])):
+                    ac = Case(cfg, ap, (rs["total"], rs["code"], rs["comment"], rs["blank"], 0), tag="cli-alias")
+                    tally.fails.append((ac, json.dumps(r), ["%s (%s): explain reports limit %d warn %d skip %s/%s (count %d -> %s), check --files reports sloc %d limit %d %s" %
+                                                            (ap, what, ej["effective_limit"], ej["effective_warn_at"], ej["skip_comments"], ej["skip_blank"], cnt, want_status,
+                                                             r["sloc"], r["limit"], r["status"])]))
             if pi < 2:
                 ctx.sample({"cli_project": cfg.toml(omit), "files": want, "override_args": cli.args() if cli else None,
                             "explain_of_first_file": explained.get(sorted(explained)[0]) if explained else None})
